@@ -1059,7 +1059,12 @@ class PseudoNetCDFFile(PseudoNetCDFSelfReg, object):
                 isinstance(val, (PseudoNetCDFVariable,)) and
                 val.dimensions != ()
             ):
-                outf.variables[key] = val
+                if outf is not self and any(val is v_ for v_ in
+                                            self.variables.values()):
+                    # plain assignment (B = A): do not share A's data
+                    outf.copyVariable(val, key=key)
+                else:
+                    outf.variables[key] = val
             else:
                 outf.createVariable(key, val.dtype.char,
                                     dimt, values=val, **propd)
